@@ -16,10 +16,11 @@ def gen_msg(rng, small=True):
     return "%s %s" % (bstr(rng.choice(TIPS[:1] if small else TIPS)), bstr(rng.choice(pl)))
 
 
-def gen_action(rng, nprocs, nnames, feat):
+def gen_action(rng, nprocs, nnames, feat, prefer_dst=None):
     r = rng.random()
     if r < 0.45:
-        return "S %d %s" % (rng.randrange(nprocs), gen_msg(rng))
+        dst = prefer_dst if (prefer_dst is not None and rng.random() < 0.65) else rng.randrange(nprocs)
+        return "S %d %s" % (dst, gen_msg(rng))
     if r < 0.60:
         return "L %s" % gen_msg(rng)
     if r < 0.90 and feat["timers"]:
@@ -50,7 +51,21 @@ def gen_system(rng, feat):
         skews.append(sk)
         lines.append("NODE %d %d" % (n, f64_bits(sk)))
     placement = [rng.randrange(nnodes) for _ in range(nprocs)]
+    # "sink": the last process is stateless and only echoes what it receives to its local outbox (one fixed local
+    # message per kind of input): its process state never changes, its outbox records the ORDER of arrivals - states
+    # that differ only in earlier outbox positions exist, and the state space stays finite without a depth bound
+    sink = nprocs - 1 if feat.get("sink") else None
+    if sink is not None:
+        nprocs_eff = nprocs
     for p in range(nprocs):
+        if p == sink:
+            nrows = rng.choice([2, 3])
+            lines.append("PROC %d %d %d %d %d %d" % (p, placement[p], 1, 2, 0, nrows))
+            pls = list(PAYLOADS[:3])
+            rng.shuffle(pls)
+            for i in range(nrows):
+                lines.append("ROW %d 1 L %s %s" % (p, bstr(TIPS[0]), bstr(pls[i % len(pls)])))
+            continue
         cap = rng.choice([1, 2, 2, 3])
         nrows = rng.choice([1, 2, 3])
         rectime = 1 if (feat["clock"] and rng.random() < 0.5) else 0
@@ -60,7 +75,7 @@ def gen_system(rng, feat):
         lines.append("PROC %d %d %d %d %d %d" % (p, placement[p], cap, rectime | stateless, 0, nrows))
         for _ in range(nrows):
             k = rng.choice([0, 1, 1, 2, 2, 3])
-            acts = [gen_action(rng, nprocs, nnames, feat) for _ in range(k)]
+            acts = [gen_action(rng, nprocs, nnames, feat, prefer_dst=sink) for _ in range(k)]
             lines.append("ROW %d %d %s" % (p, k, " ".join(acts)))
     def rate(on):
         return f64_bits(0.5) if on else f64_bits(0.0)
@@ -212,6 +227,38 @@ def gen_timer_base(rng):
             "netops": False, "mf": rng.random() < 0.2, "stateless": False, "timer_rich": True}
     if feat["mf"]:
         cb.insert(0, "CB MODE 1")
+    preds = ["PRED INV NONE", "PRED GOAL NOEVENTS", "PRED PRUNE NONE", "PRED COLLECT NONE"]
+    return {"sys": lines, "cb": cb, "preds": preds, "feat": feat, "nprocs": nprocs, "nnodes": nnodes}
+
+
+def gen_fanin_base(rng):
+    """fan-in into an order-recording stateless sink: one or two senders emit 3-4 messages with distinct payloads to
+    the sink in one handler call; the sink echoes each to its local outbox.  Different delivery orders converge to
+    equal process states and equal pending events with outboxes that differ only in EARLIER positions."""
+    nnodes = rng.choice([1, 2, 3])
+    nsend = rng.choice([1, 2])
+    nprocs = nsend + 1
+    sink = nprocs - 1
+    placement = [rng.randrange(nnodes) for _ in range(nprocs)]
+    lines = ["NODE %d 0" % n for n in range(nnodes)]
+    pls = list(PAYLOADS)
+    for p in range(nsend):
+        rng.shuffle(pls)
+        k = rng.choice([3, 3, 4]) if nsend == 1 else rng.choice([2, 3])
+        acts = ["S %d %s %s" % (sink, bstr(TIPS[0]), bstr(pls[i % len(pls)])) for i in range(k)]
+        lines.append("PROC %d %d 1 0 0 1" % (p, placement[p]))
+        lines.append("ROW %d %d %s" % (p, len(acts), " ".join(acts)))
+    nrows = rng.choice([2, 3, 3])
+    lines.append("PROC %d %d 1 2 0 %d" % (sink, placement[sink], nrows))
+    outs = list(PAYLOADS[:3])
+    rng.shuffle(outs)
+    for i in range(nrows):
+        lines.append("ROW %d 1 L %s %s" % (sink, bstr(TIPS[0]), bstr(outs[i % len(outs)])))
+    lines.append("NET 0 0 0 %d %d" % (f64_bits(1.0), f64_bits(1.0)))
+    lines += clock_lines([0.0])
+    cb = ["CB LOCAL %d %d %s" % (placement[p], p, gen_msg(rng)) for p in range(nsend)]
+    feat = {"timers": False, "override": False, "clock": False, "drop": False, "dupl": False, "corrupt": False, "crash": False,
+            "netops": False, "mf": False, "stateless": False, "sink": True, "fanin": True}
     preds = ["PRED INV NONE", "PRED GOAL NOEVENTS", "PRED PRUNE NONE", "PRED COLLECT NONE"]
     return {"sys": lines, "cb": cb, "preds": preds, "feat": feat, "nprocs": nprocs, "nnodes": nnodes}
 
